@@ -228,6 +228,8 @@ class Intrinsics:
             except ValueError:
                 from .interp import SymRaise, mk_exc
                 raise SymRaise(mk_exc('ValueError'))
+        if isinstance(v, SymFloat):
+            return self._float_int(P, v)
         if is_sym_real(v):
             # truncation toward zero
             f = z3.ToInt(v)
@@ -251,6 +253,10 @@ class Intrinsics:
     def b_str(self, P, v=''):
         if isinstance(v, str):
             return v
+        if isinstance(v, SymFloat):
+            return self._float_str(P, v)
+        if isinstance(v, float):
+            return str(v)
         if isinstance(v, int) and not is_z3(v):
             return str(v)
         return Opaque('str')
@@ -603,7 +609,87 @@ class Intrinsics:
     def m_float_is_integer(self, P, recv):
         if isinstance(recv, float):
             return recv.is_integer()
+        if isinstance(recv, SymFloat):
+            # finite and no fractional bit: c * 2^exp with exp >= 0, or 2^-exp divides c
+            sg, E, c, exp = self._fdecode(recv)
+            return simp(z3.And(E != 2047, z3.Or(c == 0, exp >= 0, c % theory.pow2(-exp) == 0)))
         raise Unsupported('float.is_integer symbolic')
+
+    @staticmethod
+    def _fdecode(v):
+        """binary64 fields of a SymFloat: (sign bit, biased exponent E, integer significand c, exponent exp) with
+        |value| = c * 2^exp for E != 2047 (IEEE 754 binary64 layout)"""
+        bits = v.bits
+        sg = bits / (1 << 63)
+        E = (bits / (1 << 52)) % 2048
+        M = bits % (1 << 52)
+        c = z3.If(E == 0, M, M + (1 << 52))
+        exp = z3.If(E == 0, z3.IntVal(-1074), E - 1075)
+        return sg, E, c, exp
+
+    def _float_int(self, P, v):
+        """int(float): truncation toward zero; ValueError for nan, OverflowError for inf"""
+        from .interp import SymRaise, mk_exc
+        sg, E, c, exp = self._fdecode(v)
+        M = v.bits % (1 << 52)
+        if P.branch(simp(E == 2047), 'float is inf/nan'):
+            if P.branch(simp(M == 0), 'float is inf'):
+                raise SymRaise(mk_exc('OverflowError'), 'int(inf)')
+            raise SymRaise(mk_exc('ValueError'), 'int(nan)')
+        if P.branch(simp(exp >= 0), 'float exp>=0'):
+            mag = c * theory.pow2(exp)
+        else:
+            mag = c / theory.pow2(-exp)
+        return simp(z3.If(sg == 1, -mag, mag))
+
+    def _float_str(self, P, v):
+        """
+        str(float) / repr(float).  TRUSTED model (CPython float_repr_style 'short'): the result r is a spelling of the
+        decimal literal grammar iff v is finite; it carries a minus sign iff the sign bit is set; and it round-trips,
+        i.e. v is the double nearest to the number r denotes (stated as the necessary condition
+        2*|den10(r) - |v|| <= 2^exp).  Which of the many such spellings repr picks (the shortest) is NOT modelled.
+        """
+        from . import strings
+        r = strings.SymStr(None, P.fresh_name('str(float)'))
+        d = strings.parse_vars(P, r, 'dec', 10)
+        sg, E, c, exp = self._fdecode(v)
+        P.assume(d['matches'] == (E != 2047), fact=True)
+        P.assume(z3.Implies(d['matches'], z3.And((d['sign'] == 2) == (sg == 1), d['sign'] != 1,
+                                                 self._near(self._mag10(d), c, exp))), fact=True)
+        return r
+
+    @staticmethod
+    def _mag10(d):
+        """|den10| of a decimal decomposition as a z3 real (same formula as spec/c06.py den10_of)"""
+        I, F, E_ = d['I'], d['F'], d['E']
+        ten = z3.IntVal(10)
+        mant = z3.ToReal(I.val) + z3.ToReal(F.val) / z3.ToReal(theory.ipow(ten, F.len))
+        return z3.If(d['esign'] == 2, mant / z3.ToReal(theory.ipow(ten, E_.val)), mant * z3.ToReal(theory.ipow(ten, E_.val)))
+
+    @staticmethod
+    def _near(x, c, exp):
+        """necessary condition for `c * 2^exp` being the binary64 nearest to the real x >= 0: 2*|x - c*2^exp| <= 2^exp"""
+        up = z3.ToReal(theory.pow2(exp))
+        dn = z3.ToReal(theory.pow2(-exp))
+        return z3.If(exp >= 0,
+                     z3.And(2 * (x - z3.ToReal(c) * up) <= up, 2 * (z3.ToReal(c) * up - x) <= up),
+                     z3.And(2 * (x * dn - z3.ToReal(c)) <= 1, 2 * (z3.ToReal(c) - x * dn) <= 1))
+
+    def s_float_rounds_to(self, P, x, v):
+        """speclib.float_rounds_to(x, v): the float v is the binary64 nearest to the rational x >= 0 (round to nearest,
+        overflow to inf).  Symbolically only the NECESSARY condition |x - v| <= ulp/2 (finite v) resp. x >= 2^1023 (inf)
+        is used: sound as an assumption; counterexamples are re-checked natively with the exact relation."""
+        if isinstance(v, float) and not is_z3(x):
+            import speclib
+            return speclib.float_rounds_to(x, v)        # all concrete: the exact native relation
+        if isinstance(v, float):
+            v = SymFloat(z3.IntVal(int.from_bytes(__import__('struct').pack('<d', v), 'little')))
+        if not isinstance(v, SymFloat):
+            return False
+        sg, E, c, exp = self._fdecode(v)
+        M = v.bits % (1 << 52)
+        xr = as_z3real(x)
+        return simp(z3.And(sg == 0, z3.If(E == 2047, z3.And(M == 0, xr >= z3.RealVal(2 ** 1023)), self._near(xr, c, exp))))
 
     def m_float_as_integer_ratio(self, P, recv):
         if isinstance(recv, float):
